@@ -93,20 +93,26 @@ def storeElem (st : St) (tid c k d s : Nat) : List Act :=
 
 /-- mutable container access + append: in place for the sole owner, otherwise clone (copying the embedded handles),
     release the old payload, store the new one; `x` = flat value of the new element, `s` = the handle it copies -/
+def storeOpt (st : St) (tid c k d : Nat) : Option Nat → List Act
+  | some s => storeElem st tid c k d s
+  | none => []
+
 def appendN (st : St) (tid d tag : Nat) (x : Nat) (s : Option Nat) (isList : Bool) : List Act :=
-  let store (c k : Nat) : List Act := match s with | some s => storeElem st tid c k d s | none => []
-  match blkOfTag st d tag with
-  | some c =>
-    let val := viewVal st d
-    let k := if isList then val.length else (embKs st c).length
-    let nv := if isList then val ++ [x] else val
-    if isWriting st tid then [.write nv] ++ store c k
-    else
+  let store (c k : Nat) : List Act := storeOpt st tid c k d s
+  let val := viewVal st d
+  let nv := if isList then val ++ [x] else val
+  if isWriting st tid then
+    -- in place (the successful read was made on a container of this kind)
+    match blkOfTag st d tag with
+    | some c => [.write nv] ++ store c (if isList then val.length else (embKs st c).length)
+    | none => [.write val]
+  else match blkOfTag st d tag with
+    | some c =>
       [.alloc (tmpT tid) tag nv 0] ++ copyEmb tid c d st.next (tmpT tid) (embKs st c) ++
-        [.dec d, .free, .move d (tmpT tid)] ++ store st.next k
-  | none =>
-    -- not a container of this kind: a fresh one (allocated before the old value is released: not observable)
-    [.alloc (tmpT tid) tag (if isList then [x] else []) 0, .dec d, .free, .move d (tmpT tid)] ++ store st.next 0
+        [.dec d, .free, .move d (tmpT tid)] ++ store st.next (if isList then val.length else (embKs st c).length)
+    | none =>
+      -- not a container of this kind: a fresh one (allocated before the old value is released: not observable)
+      [.alloc (tmpT tid) tag (if isList then [x] else []) 0, .dec d, .free, .move d (tmpT tid)] ++ store st.next 0
 
 /-- `d = element k of the container that s designates` (counted share-assignment from an embedded handle) -/
 def getEmb (st : St) (tid d s k tag : Nat) (isList : Bool) : List Act :=
@@ -121,8 +127,11 @@ def getEmb (st : St) (tid d s k tag : Nat) (isList : Bool) : List Act :=
 
 def preN (st : St) (tid : Nat) : NOp → List Act
   | .flat op => pre st tid op
-  | .vPushV d _ => [.readRef d (blkTag st d == some tagVList)]
-  | .xAddC d _ => [.readRef d (blkTag st d == some tagXElem)]
+  | .vPushV d s =>
+    -- a Variant is not appended to its own list (cycle), a null Variant is not exercised: rejected
+    if d = s ∨ isNoneH st s = true then [.move d d] else [.readRef d (blkTag st d == some tagVList)]
+  | .xAddC d s =>
+    if d = s ∨ (st.slots s).isBlk = false then [.move d d] else [.readRef d (blkTag st d == some tagXElem)]
   | .vGetV d s k => getEmb st tid d s k tagVList true
   | .xGetC d s k => getEmb st tid d s k tagXElem false
 
@@ -146,9 +155,8 @@ def postN (st : St) (tid : Nat) : NOp → List Act
           [.dec d, .free, .move d (tmpT tid)]
       | none => cloneReleaseFirst d tagXElem bytes
   | .flat op => post st tid op
-  | .vPushV d s => if d = s ∨ isNoneH st s = true then [.move d d] else appendN st tid d tagVList (elemVal st s) (some s) true
-  | .xAddC d s =>
-    if d = s ∨ (st.slots s).isBlk = false then [.move d d] else appendN st tid d tagXElem 0 (some s) false
+  | .vPushV d s => appendN st tid d tagVList (elemVal st s) (some s) true
+  | .xAddC d s => appendN st tid d tagXElem 0 (some s) false
   | .vGetV .. => []
   | .xGetC .. => []
 
